@@ -15,6 +15,15 @@
 //!              (oracle written here, independent of the Lean model);
 //!   * `rt`   : the leaves read back through `Reader` equal the values written;
 //!   * `fl`   : number of `write_all` calls the sink saw (raw only: not part of the property).
+//!
+//! Second line kind (C09 bridge): `r buf=<BUF> dbg=<0|1|*> rbuf=<n> rc=<n> alt=<0|1> ; op ; op ; …` — the same
+//! ops are written through the real `Writer` (plain sink), the sink bytes are read back through the real
+//! `Reader` from a source with chunk size `rc` (as above) and the *values read* are printed:
+//! `I rb drop=len:fnv vals=<v>,<v>,…,eof=<bool> | V <same>` with `<v>` = decimal integer, `s:<hex>` (`String`),
+//! `c:<hex>` (`char`), `(…)` a tuple read, `[…]` a `read_vec`. `alt=1`: one-byte words are read as `char`,
+//! sequences of integers of one type as `read::<($t,…)>()` (tuples) / `read_vec::<$t>(n)`. The driver answers
+//! the same line by running the Reader *model* on the Writer *model's* sink (`rbuf` = its buffer size).
+//! Scripts outside the read-back domain answer `INVALID` on both sides.
 #[path = "../../common/mod.rs"]
 mod common;
 use common::*;
@@ -142,6 +151,61 @@ macro_rules! def_hval {
                         }
                     )*
                     xs.iter().all(|x| read_back(r, x, alt))
+                }
+            }
+        }
+        /// (signed, bits) of an integer leaf (`isize`/`usize` are 64-bit: the model does not distinguish them from `i64`/`u64`)
+        fn int_class(v: &HVal) -> Option<(bool, u32)> {
+            match v {
+                $(HVal::$v(_) => Some((<$t>::MIN != 0, <$t>::BITS)),)*
+                _ => None,
+            }
+        }
+
+        /// `r` lines: read one written value back and append what was read to `out`
+        fn read_show(r: &mut Reader, v: &HVal, alt: bool, out: &RefCell<Vec<String>>) {
+            match v {
+                $(HVal::$v(_) => {
+                    let x = r.read::<$t>();
+                    out.borrow_mut().push(x.to_string());
+                })*
+                HVal::Str(s, _) => {
+                    if alt && s.len() == 1 {
+                        let c = r.read::<char>();
+                        out.borrow_mut().push(format!("c:{:02x}", c as u32));
+                    } else {
+                        let t = r.read::<String>();
+                        let hex: String = t.chars().map(|c| format!("{:02x}", c as u32)).collect();
+                        out.borrow_mut().push(format!("s:{}", hex));
+                    }
+                }
+                HVal::Seq(tuple, xs) => {
+                    if alt && !xs.is_empty() && int_class(&xs[0]).is_some() && xs.iter().all(|x| int_class(x) == int_class(&xs[0])) {
+                        $(
+                            if let HVal::$v(_) = &xs[0] {
+                                let as_tuple = *tuple && (2..=8).contains(&xs.len());
+                                let got: Vec<$t> = if as_tuple {
+                                    match xs.len() {
+                                        2 => { let (a, b) = r.read::<($t, $t)>(); vec![a, b] }
+                                        3 => { let (a, b, c) = r.read::<($t, $t, $t)>(); vec![a, b, c] }
+                                        4 => { let (a, b, c, d) = r.read::<($t, $t, $t, $t)>(); vec![a, b, c, d] }
+                                        5 => { let (a, b, c, d, e) = r.read::<($t, $t, $t, $t, $t)>(); vec![a, b, c, d, e] }
+                                        6 => { let (a, b, c, d, e, f) = r.read::<($t, $t, $t, $t, $t, $t)>(); vec![a, b, c, d, e, f] }
+                                        7 => { let (a, b, c, d, e, f, g) = r.read::<($t, $t, $t, $t, $t, $t, $t)>(); vec![a, b, c, d, e, f, g] }
+                                        _ => { let (a, b, c, d, e, f, g, h) = r.read::<($t, $t, $t, $t, $t, $t, $t, $t)>(); vec![a, b, c, d, e, f, g, h] }
+                                    }
+                                } else {
+                                    r.read_vec::<$t>(xs.len())
+                                };
+                                let items: Vec<String> = got.iter().map(|x| x.to_string()).collect();
+                                out.borrow_mut().push(if as_tuple { format!("({})", items.join(",")) } else { format!("[{}]", items.join(",")) });
+                                return;
+                            }
+                        )*
+                    }
+                    for x in xs {
+                        read_show(r, x, alt, out);
+                    }
                 }
             }
         }
@@ -448,6 +512,9 @@ fn drop_str(bs: &[u8]) -> String {
 }
 
 fn run_case(line: &str) -> String {
+    if line.starts_with("r ") {
+        return run_rcase(line);
+    }
     let mut parts = line.split(';').map(|p| p.trim());
     let hdr = match parts.next().and_then(parse_hdr) {
         Some(h) => h,
@@ -608,6 +675,165 @@ fn run_case(line: &str) -> String {
         None => "*".to_string(),
     };
     out2(&format!("{} fl={}", view, fl), &view)
+}
+
+// ------------------------------------------------------------------------------------------------
+// `r` lines: write, drop, read back, print the values read
+// ------------------------------------------------------------------------------------------------
+
+struct RHdr {
+    buf: usize,
+    rbuf: usize,
+    rc: usize,
+    alt: bool,
+}
+
+fn parse_rhdr(s: &str) -> Option<RHdr> {
+    let ts: Vec<&str> = s.split_whitespace().collect();
+    if ts.first() != Some(&"r") {
+        return None;
+    }
+    let get = |key: &str| -> Option<&str> {
+        ts.iter().find_map(|t| t.split_once('=').and_then(|(k, v)| if k == key { Some(v) } else { None }))
+    };
+    if !matches!(get("dbg")?, "0" | "1" | "*") {
+        return None;
+    }
+    let alt = match get("alt")? {
+        "0" => false,
+        "1" => true,
+        _ => return None,
+    };
+    Some(RHdr { buf: get("buf")?.parse().ok()?, rbuf: get("rbuf")?.parse().ok()?, rc: get("rc")?.parse().ok()?, alt })
+}
+
+/// All ops on a real `Writer` over `sink`, then drop.
+fn exec_ops_plain(ops: &[Op], sink: Box<dyn Write>) {
+    let writer = ManuallyDrop::new(Writer::new(sink));
+    let reader = ();
+    rlib_io::make_output_macro!(reader, writer);
+    for op in ops {
+        match op {
+            Op::Write(v) => write_top(&mut writer, v),
+            Op::Char(c) => writer.write_char(*c),
+            Op::Flush => writer.flush(),
+            Op::Out(false, vs) => match vs.len() {
+                1 => { out!(vs[0]); }
+                2 => { out!(vs[0], vs[1]); }
+                3 => { out!(vs[0], vs[1], vs[2]); }
+                4 => { out!(vs[0], vs[1], vs[2], vs[3]); }
+                5 => { out!(vs[0], vs[1], vs[2], vs[3], vs[4]); }
+                6 => { out!(vs[0], vs[1], vs[2], vs[3], vs[4], vs[5]); }
+                _ => unreachable!(),
+            },
+            Op::Out(true, vs) => match vs.len() {
+                0 => { outln!(); }
+                1 => { outln!(vs[0]); }
+                2 => { outln!(vs[0], vs[1]); }
+                3 => { outln!(vs[0], vs[1], vs[2]); }
+                4 => { outln!(vs[0], vs[1], vs[2], vs[3]); }
+                5 => { outln!(vs[0], vs[1], vs[2], vs[3], vs[4]); }
+                6 => { outln!(vs[0], vs[1], vs[2], vs[3], vs[4], vs[5]); }
+                _ => unreachable!(),
+            },
+        }
+    }
+    unsafe { ManuallyDrop::drop(&mut writer) };
+}
+
+fn run_rcase(line: &str) -> String {
+    let mut parts = line.split(';').map(|p| p.trim());
+    let hdr = match parts.next().and_then(parse_rhdr) {
+        Some(h) => h,
+        None => return out1("INVALID"),
+    };
+    let mut ops = Vec::new();
+    for p in parts {
+        if p.is_empty() {
+            continue;
+        }
+        match parse_op(p) {
+            Some(o) => ops.push(o),
+            None => return out1("INVALID"),
+        }
+    }
+    if hdr.buf < 39 || hdr.rbuf == 0 || ops.iter().any(|o| matches!(o, Op::Char(c) if *c as u32 >= 128)) {
+        return out1("INVALID");
+    }
+    // oracle text and leaves; domain of the read-back
+    let mut want = Vec::new();
+    let mut lv: Vec<&HVal> = Vec::new();
+    for op in &ops {
+        match op {
+            Op::Write(v) => {
+                fmt_val(v, &mut want);
+                leaves(v, &mut lv);
+            }
+            Op::Char(c) => want.push(*c as u32 as u8),
+            Op::Flush => {}
+            Op::Out(nl, vs) => {
+                for (i, v) in vs.iter().enumerate() {
+                    if i != 0 {
+                        want.push(b' ');
+                    }
+                    fmt_val(v, &mut want);
+                    leaves(v, &mut lv);
+                }
+                if *nl {
+                    want.push(b'\n');
+                }
+            }
+        }
+    }
+    let toks: Vec<&[u8]> = want.split(|b| b.is_ascii_whitespace()).filter(|t| !t.is_empty()).collect();
+    let eligible = toks.len() == lv.len()
+        && toks.iter().zip(lv.iter()).all(|(t, l)| *t == &leaf_text(l)[..])
+        && lv.iter().all(|l| if let HVal::Str(s, _) = l { s.is_ascii() } else { true });
+    if !eligible {
+        return out1("INVALID");
+    }
+    // write
+    let data = Rc::new(RefCell::new(Vec::<u8>::new()));
+    let res = {
+        let data = data.clone();
+        let ops = &ops;
+        catch(move || exec_ops_plain(ops, Box::new(Sink { data, k: 0, j: 0, calls: 0 })))
+    };
+    if let Err(p) = res {
+        return out1(&p);
+    }
+    let got = data.borrow().clone();
+    if got != want {
+        return out1(&format!("rb drop={} vals=fmt-bad", obs_str(&got)));
+    }
+    // read back through the real Reader
+    let vals: Rc<RefCell<Vec<String>>> = Rc::new(RefCell::new(Vec::new()));
+    let r = {
+        let vals = vals.clone();
+        let src = Src { data: got.clone(), pos: 0, chunk: hdr.rc, calls: 0 };
+        let alt = hdr.alt;
+        let ops = &ops;
+        catch(move || {
+            let mut reader = Reader::new(Box::new(src));
+            for op in ops {
+                let vs: &[HVal] = match op {
+                    Op::Write(v) => std::slice::from_ref(v),
+                    Op::Out(_, vs) => vs,
+                    _ => &[],
+                };
+                for v in vs {
+                    read_show(&mut reader, v, alt, &vals);
+                }
+            }
+            let e = reader.is_eof();
+            vals.borrow_mut().push(format!("eof={}", e));
+        })
+    };
+    if let Err(p) = r {
+        vals.borrow_mut().push(p);
+    }
+    let joined = vals.borrow().join(",");
+    out1(&format!("rb drop={} vals={}", obs_str(&got), joined))
 }
 
 // ------------------------------------------------------------------------------------------------
@@ -792,6 +1018,17 @@ impl<'a> Gen<'a> {
             j,
             if rt { 1 } else { 0 },
             rc,
+            ops.join(" ; ")
+        ));
+    }
+    /// an `r` line (write, drop, read back, values printed); `rbuf` = the real reader's buffer size
+    fn rcase(&mut self, rc: usize, alt: bool, ops: &[String]) {
+        (self.emit)(format!(
+            "r buf={} dbg={} rbuf=65536 rc={} alt={} ; {}",
+            self.buf,
+            self.dbg,
+            rc,
+            if alt { 1 } else { 0 },
             ops.join(" ; ")
         ));
     }
@@ -1032,6 +1269,82 @@ fn gen(args: &Args, emit: &mut dyn FnMut(String), st: &mut Stats) {
         }
         g.case(0, 0, true, [0usize, 1, 4095, 65536][i % 4], &ops);
         st.bump("roundtrip_long");
+    }
+
+    // (7) `r` lines: values read back through the real Reader, printed and compared with the Reader model run on the
+    //     Writer model's sink --------------------------------------------------------------------------------------
+    const RCS: [usize; 10] = [0, 1, 2, 3, 4, 5, 6, 7, 64, 4095];
+    for t in 0..12usize {
+        // tuples of every arity (read with `read::<($t,…)>()` when alt) and vectors (`read_vec::<$t>(n)`) of boundary values
+        for n in 2..=8usize {
+            let xs: Vec<String> = with_bv(t, &mags, |bv| (0..n).map(|_| rng.pick(bv).clone()).collect());
+            let rc = *rng.pick(&RCS);
+            g.rcase(rc, n % 4 != 1, &[format!("L 1 t {} {}", n, xs.join(" "))]);
+            st.bump("rb_tuple");
+        }
+        for n in [1usize, 2, 3, 5, 9, 17] {
+            let xs: Vec<String> = with_bv(t, &mags, |bv| (0..n).map(|_| rng.pick(bv).clone()).collect());
+            let rc = *rng.pick(&RCS);
+            g.rcase(rc, n != 5, &[format!("W v {} {}", n, xs.join(" ")), format!("C {}", rng.pick(&[32u32, 10, 9, 13, 12]))]);
+            st.bump("rb_vec");
+        }
+    }
+    let n_rb = if thorough { 20000 } else { 500 };
+    for _ in 0..n_rb {
+        let nops = 1 + rng.below(5) as usize;
+        let mut ops = Vec::new();
+        let val = |rng: &mut SplitMix64, st: &mut Stats| -> String {
+            if rng.chance(1, 6) {
+                // a one-byte word (read back as `char` when alt)
+                format!("x:{:02x}", 33 + rng.below(94))
+            } else {
+                // ASCII words only (pattern kind 2 is non-ASCII: outside the read-back domain)
+                loop {
+                    let v = rand_val(rng, buf, 2, true, false, &mags, st);
+                    if !v.contains(":2:") {
+                        return v;
+                    }
+                }
+            }
+        };
+        for _ in 0..nops {
+            match rng.below(4) {
+                0 => {
+                    ops.push(format!("W {}", val(&mut rng, st)));
+                    ops.push(format!("C {}", rng.pick(&[32u32, 10, 9, 13, 12])));
+                }
+                1 => {
+                    let n = 1 + rng.below(MAX_OUT_ARITY as u64) as usize;
+                    let xs: Vec<String> = (0..n).map(|_| val(&mut rng, st)).collect();
+                    ops.push(format!("O {} {}", n, xs.join(" ")));
+                    ops.push(format!("C {}", rng.pick(&[32u32, 10, 9, 13, 12])));
+                }
+                _ => {
+                    let n = rng.below(MAX_OUT_ARITY as u64 + 1) as usize;
+                    let xs: Vec<String> = (0..n).map(|_| val(&mut rng, st)).collect();
+                    ops.push(format!("L {} {}", n, xs.join(" ")).trim_end().to_string());
+                }
+            }
+            if rng.chance(1, 10) {
+                ops.push("F".to_string());
+            }
+        }
+        let rc = *rng.pick(&RCS);
+        g.rcase(rc, rng.chance(1, 2), &ops);
+        st.bump("rb_script");
+    }
+    // longer than two reader buffers
+    for i in 0..(if thorough { 8 } else { 1 }) {
+        let xs: Vec<String> = (0..6).map(|_| rand_int(&mut rng, &mags)).collect();
+        let ops = vec![
+            format!("L 6 {}", xs.join(" ")),
+            format!("L 2 s:0:{}:{} {}", 70000 + 13 * i, i, xs[0]),
+            format!("W t 6 {}", xs.join(" ")),
+            "C 10".to_string(),
+            format!("L 1 S:0:{}:{}", 65536 + i, i + 1),
+        ];
+        g.rcase([4095usize, 0, 1, 65536][i % 4], i % 2 == 0, &ops);
+        st.bump("rb_long");
     }
 
     // (6) out of the property's domain (non-ASCII characters are truncated by `c as u8`) --------------
